@@ -785,7 +785,53 @@ def plan_C16(w):
                                  "after a bootstrap the cache holds what the replay recomputed: the public path is compared for keys written by the running incarnation, the database path for all keys"])
 
 
+# ------------------------------------------------------------------ C15 (codec cases)
+
+def c15_corrupt(d):
+    if d.get("a") == "Codec" and d["x"].get("path") == "db":
+        d["o"]["h1"] = "00" + d["o"]["h1"][2:]
+        return True
+    return False
+
+
+def plan_C15(w):
+    q = Q(w)
+    known = vlib.load_known()
+    r = w.model_check("codec", "MC_codec.cfg", module="Codec.tla", workers=1, timeout=300)
+    if not r.get("complete"):
+        raise Infra("Codec.tla did not complete: %s" % r.get("raw_tail"))
+    cases = os.path.join(w.dir, "tlc_mc_codec", "codec_cases.json")
+    if not os.path.exists(cases):
+        raise Infra("TLC did not write the case list")
+    lists = json.load(open(cases))
+    ncases = sum(len(v) for v in lists.values())
+    log("  mc codec     Codec.tla: %d cases written (%s)" % (ncases, {k: len(v) for k, v in lists.items()}))
+    specs = [("codec%d" % i, ["-seed", w.seed * 31 + i, "-arg", cases]) for i in range(1 if q else 4)]
+    traces, sums = drive_par(w, specs, "codec", par=4)
+    for s in sums:
+        if s["extra"]["cases_executed"] != ncases:
+            raise Infra("driver executed %d of %d cases" % (s["extra"]["cases_executed"], ncases))
+    # frames computed by different nodes of real runs (static and changing validator sets)
+    g = [("gsp", dict(traces=3 if q else 10, n=0, steps=140 if q else 260, sched="mix"))]
+    t2, s2 = drive_all(w, gossip_specs(w, g))
+    t3, s3 = drive_all(w, gossip_specs(w, [("dyn", dict(traces=2 if q else 6, n=0, steps=300 if q else 450))]), mode="dyn")
+    tvs = w.validate_many(traces + t2 + t3, par=6)
+    for r in tvs[:len(traces)]:
+        if r.get("stats", {}).get("codec") != ncases:
+            raise Infra("TLC consumed %s of %d codec cases" % (r.get("stats", {}).get("codec"), ncases))
+    violations, known_hits, drift = judge(w, "C15", tvs, known)
+    st = None
+    if not violations:
+        st = selftest(w, "C15", traces[0], c15_corrupt, "the hash of an event reloaded from the database reported differently")
+    extra = {"selftest": st, "cases": {k: len(v) for k, v in lists.items()}, "cases_total": ncases,
+             "scenarios": "TLC enumerates the case domain of CodecCases.tla (event: 5 transaction shapes x 4 internal-transaction shapes x 4 block-signature shapes x 4 parent combinations x 4 paths; block: 5 x 4 x receipts x 0/1/3 signatures x 2 paths; frame: 0/1/5 events x roots x 1/3 peers x 1/3 peer-sets x 3 paths); the driver executes every case through the real ToWire/ReadWireInfo, encoding/json transport structs, MarshalDB/UnmarshalDB via a closed and reopened Badger store, Frame.Marshal with maps filled in reverse order; TLC checks per case: case is in the domain, hash equal, signatures still valid, payload digest equal; plus: the frame hash and peers hash of every block delivered by different real nodes (gossip with static and changing validator sets) are equal"}
+    return conclude(w, "C15", sums + s2 + s3, violations, known_hits, drift, extra=extra, min_blocks=1,
+                    assumptions=["block signatures carried by an event are the creator's own (the wire form drops the validator key and restores it from the creator)",
+                                 "payload bytes are random per seed; shapes are exhaustive over the finite domain of CodecCases.tla, sizes are not (up to 20 transactions of up to 40 bytes)"])
+
+
 PLANS = {
+    "C15": plan_C15,
     "C11": plan_C11,
     "C16": plan_C16,
     "C08": plan_C08,
